@@ -112,6 +112,16 @@ func runHistory(c *vk.Ctx, cfg cfgT, hist []int, idx int64) bool {
 	}
 	prevLogged := r.S.IsLogged()
 	reachedDecision := false
+	// the identifiers the session must stamp on what it sends: configured for an initiator, mirrored from the
+	// Logon that was accepted for an acceptor; a later, rejected Logon must not change them
+	idSender, idTarget := rig.LibID, rig.PeerID
+	identityKnown := cfg.role == rig.Initiator
+	maxSeqSeen := 0
+	for _, o := range r.InitOuts {
+		if n, err := strconv.Atoi(fixref.GetS(o.Fields, rig.TSeq)); err == nil && n > maxSeqSeen {
+			maxSeqSeen = n
+		}
+	}
 	for k, si := range hist {
 		sy := alpha[si]
 		var res rig.StepResult
@@ -150,6 +160,28 @@ func runHistory(c *vk.Ctx, cfg cfgT, hist []int, idx int64) bool {
 		}
 		seq := strconv.Itoa(p.Seq)
 		from := []string{"W", "L", "U"}[state]
+
+		if cfg.role == rig.Acceptor && !sy.Local && sy.LogonClass == rig.LogonGood && !prevLogged && res.Logged {
+			fs, _ := fixref.TokenizeLoose(raw)
+			idSender, idTarget = fixref.GetS(fs, rig.TTarget), fixref.GetS(fs, rig.TSender)
+			identityKnown = true
+		}
+		if identityKnown && prevLogged {
+			for _, o := range res.Outs {
+				if n, err := strconv.Atoi(fixref.GetS(o.Fields, rig.TSeq)); err != nil || n <= maxSeqSeen {
+					continue // a retransmission of an earlier message keeps the identifiers it was first sent with
+				}
+				if fixref.GetS(o.Fields, rig.TSender) != idSender || fixref.GetS(o.Fields, rig.TTarget) != idTarget {
+					viol("C06/session-identity-disturbed/"+cfg.role.String()+"/"+sy.Name, fmt.Sprintf("a message sent at this step (35=%s) carries 49=%s 56=%s; the session logged on as 49=%s 56=%s", o.Type, fixref.GetS(o.Fields, rig.TSender), fixref.GetS(o.Fields, rig.TTarget), idSender, idTarget), k)
+					break
+				}
+			}
+		}
+		for _, o := range res.Outs {
+			if n, err := strconv.Atoi(fixref.GetS(o.Fields, rig.TSeq)); err == nil && n > maxSeqSeen {
+				maxSeqSeen = n
+			}
+		}
 		acceptable := false
 		if !sy.Local {
 			if cfg.role == rig.Acceptor {
@@ -228,6 +260,9 @@ func runHistory(c *vk.Ctx, cfg cfgT, hist []int, idx int64) bool {
 					if probe.TimedOut {
 						c.Inconclusive("watchdog in probe")
 						return false
+					}
+					if len(probe.Outs) == 1 && identityKnown && (fixref.GetS(probe.Outs[0].Fields, rig.TSender) != idSender || fixref.GetS(probe.Outs[0].Fields, rig.TTarget) != idTarget) {
+						viol("C06/session-identity-disturbed/"+cfg.role.String()+"/after-rejected-logon", fmt.Sprintf("after a rejected further Logon (%s) the session sends as 49=%s 56=%s; it logged on as 49=%s 56=%s", sy.Name, fixref.GetS(probe.Outs[0].Fields, rig.TSender), fixref.GetS(probe.Outs[0].Fields, rig.TTarget), idSender, idTarget), k)
 					}
 					if len(probe.Outs) != 1 || probe.Outs[0].Type != "0" || fixref.GetS(probe.Outs[0].Fields, rig.TTestReqID) != "probe"+seq {
 						viol("C06/logon-while-logged-disturbed-session", "after a rejected further Logon a TestRequest was answered with "+types(probe.Outs), k)
